@@ -48,6 +48,7 @@ type unsupportedErr struct {
 }
 
 type VC struct {
+	aborted bool // the run ended with an unsupported construct or a contract error
 	w        *World
 	pkg      *PkgInfo
 	fd       *ast.FuncDecl
